@@ -17,7 +17,7 @@ import (
 // C12: the mirrored connection state and mailbox summary.
 
 //@ rule (c *Client)
-//@   props C11:bounds,assert-type,div0,panic-unreachable C12:post,pre@call
+//@   props C11:bounds,assert-type,div0,panic-unreachable,pre@call,callsite C12:post,pre@call
 //@   requires c != nil && mirrorOK(c)
 //@   exclude read Close
 
@@ -43,6 +43,7 @@ func mirrorOK(c *Client) bool {
 // EXPUNGE decrements the count (never below zero) and changes nothing else.
 //
 //@ func (c *Client) handleExpunge(seqNum uint32) (err error)
+//@   requires seqNum != 0
 //@   ensures c.state == old(c.state) && mirrorOK(c)
 //@   ensures old(c.state) == imap.ConnStateSelected && old(c.mailbox.NumMessages) > 0 ==> c.mailbox.NumMessages == old(c.mailbox.NumMessages)-1
 //@   ensures old(c.state) == imap.ConnStateSelected && old(c.mailbox.NumMessages) == 0 ==> c.mailbox.NumMessages == 0
@@ -79,3 +80,13 @@ func mirrorOK(c *Client) bool {
 //@   requires len(typ) > 0
 
 var _ *tls.Config // used by //@ func headers
+
+// Protocol invariants of delivered data (C11): message sequence numbers are
+// non-zero, search results are static sets (never "*").
+
+//@ func (c *Client) handleFetch(seqNum uint32) (err error)
+//@   requires seqNum != 0
+
+//@ func (c *Client) handleSearch() (err error)
+//@   callsite SeqSet.AddNum(s *imap.SeqSet, nums []uint32) requires forall k int :: 0 <= k && k < len(nums) ==> nums[k] != 0
+//@   callsite UIDSet.AddNum(s *imap.UIDSet, uids []imap.UID) requires forall k int :: 0 <= k && k < len(uids) ==> uids[k] != 0
